@@ -21,10 +21,10 @@ coq_input = genrun.coq_input
 
 def gen(rng, tier):
     cases = []
-    ndefs = 60 if tier == "quick" else 1200
+    ndefs = 200 if tier == "quick" else 1500
     for i in range(ndefs):
         doc = xmlgen.to_xml_loadable(defgen.rnd_definition(rng, apid_name="PKT_APID" if i % 5 else "APID"))
-        ns = rng.choice([("prefix", "xtce"), ("prefix", "x"), ("default",), ("none",)])
+        ns = rng.choice([("prefix", "xtce"), defgen.rnd_prefix(rng), ("default",), ("none",)])
         try:
             dobj = xmlgen.load(xmlgen.document_xml(doc, ns), ns)
         except Exception:  # noqa: BLE001
